@@ -188,6 +188,7 @@ class Engine:
         o_ext = T.choice(["wav", "raw"])
         O_ext = T.choice(["wav", "raw"])
         cmd = T.draw(10) == 0
+        debug_file = T.draw(5) == 0
         if T.draw(25) == 0 and not save_O and not quiet:
             bad_tf = T.choice(BAD_TIMEFMTS)
         intr = None
@@ -202,8 +203,20 @@ class Engine:
               "time_format": tf, "bad_time_format": bad_tf, "quiet": quiet,
               "save_o": save_o, "save_O": save_O, "join": join,
               "outfmt": outfmt, "o_ext": o_ext, "O_ext": O_ext, "cmd": cmd,
+              "debug_file": debug_file,
               "interrupt": intr, "sched": gen_sched(T, tier, n)}
-        codes = C.gen_pattern(T, n)
+        if defaults_ok and any(k not in opt for k in "nms"):
+            # documented defaults are 20 / 30 / 500 windows: use run lengths
+            # around those boundaries
+            codes = []
+            cur = T.draw(2)
+            while len(codes) < n:
+                ln = T.choice([19, 20, 21, 29, 30, 31, 5, 45, 2])
+                codes.extend([cur] * ln)
+                cur ^= 1
+            codes = codes[:n]
+        else:
+            codes = C.gen_pattern(T, n)
         if ch > 1:
             codes = [(c if not c else T.weighted([(4, 1), (1, 2), (1, 3)]))
                      for c in codes]
@@ -235,8 +248,8 @@ class Engine:
         scfg = dict(sc["sched"])
         scfg["trace_files"] = _trace_files()
         nblocks = sc["n"] + 2
-        scfg["fair_after"] = 30000 + 400 * nblocks
-        scfg["budget"] = 30000 + 1600 * nblocks
+        scfg["fair_after"] = 20000 + 50 * nblocks
+        scfg["budget"] = 20000 + 600 * nblocks
         sim = sched.Sim(S, scfg)
         stall = sources.StallPlan(tuple(scfg["stall"]), scfg["stall_durs"])
         seams.FILE_STALL["plan"] = stall
@@ -304,6 +317,16 @@ class Engine:
                     argv += ["-T", sc["outfmt"]]
             if sc["cmd"]:
                 argv += ["-C", "run {file}"]
+            if sc.get("debug_file"):
+                import logging
+                lg = logging.getLogger("AUDITOK_LOGGER")
+                for h in list(lg.handlers):
+                    lg.removeHandler(h)
+                    try:
+                        h.close()
+                    except Exception:
+                        pass
+                argv += ["--debug-file", os.path.join(tmp, "debug.log")]
             res["argv"] = argv
 
             intr = sc["interrupt"]
@@ -440,15 +463,15 @@ class Engine:
             out["probes"]["bad_time_format_rejected"] = 1
             return None
         # ---- termination / exceptions (clause 4)
-        if failure is not None:
-            kind, detail = failure
-            return V("C15.4", "%s: %s (argv %r)" % (kind, detail, argv),
-                     "C15.4:" + kind)
         for t in sim.threads:
             if t.exc is not None:
                 return V("C15.4", "exception escaped %s: %r\n%s (argv %r)" % (
                     t.role, t.exc, (t.exc_tb or "")[-700:], argv),
                     "C15.4:" + type(t.exc).__name__)
+        if failure is not None:
+            kind, detail = failure
+            return V("C15.4", "%s: %s (argv %r)" % (kind, detail, argv),
+                     "C15.4:" + kind)
         if res.get("rc") != 0:
             return V("C15.1", "exit status %r, expected 0 (argv %r)" % (
                 res.get("rc"), argv), "C15.1:status")
